@@ -43,6 +43,22 @@ func call(h Handler, args []string) (r reply) {
 	return reply{"ok", out}
 }
 
+// stdout of the protocol; set by Main
+var stdout *bufio.Writer
+
+// TimeoutNow lets an op that has established, with a deadline of its own, that the library call it is
+// waiting for will never return, end the request exactly as the runner's own timeout does: the reply
+// `timeout` is written and flushed and the process exits with status 3 (the goroutines stuck in the
+// library cannot be reclaimed; the check restarts the harness on the remaining requests). It does not
+// return. Only to be called from the goroutine that runs the op.
+func TimeoutNow() {
+	if stdout != nil {
+		fmt.Fprintln(stdout, proto.Line("timeout"))
+		stdout.Flush()
+	}
+	os.Exit(3)
+}
+
 func Main() {
 	timeout := 20 * time.Second
 	if v := os.Getenv("VERIF_CASE_TIMEOUT_MS"); v != "" {
@@ -55,6 +71,7 @@ func Main() {
 	flushEach := os.Getenv("VERIF_FLUSH_EACH") != ""
 	in := bufio.NewReaderSize(os.Stdin, 1<<20)
 	out := bufio.NewWriterSize(os.Stdout, 1<<20)
+	stdout = out
 	defer out.Flush()
 	for {
 		line, err := in.ReadString('\n')
